@@ -127,6 +127,10 @@ func (g *Gen) randToks(cfg *batchCfg, docFields []string, composite bool) ([]Tok
 			if g.chance(0.1) {
 				nl = g.r.Intn(4)
 			}
+			if t.Freq == 0 && g.chance(0.5) {
+				// no frequency kept, but term vectors: occurrences without a count
+				nl = 1 + g.r.Intn(3)
+			}
 			for j := 0; j < nl; j++ {
 				l := LocSpec{Pos: 1 + g.r.Intn(9), Start: g.r.Intn(300), End: g.r.Intn(300)}
 				if composite && len(docFields) > 0 {
